@@ -170,6 +170,9 @@ func finishRun(e *Engine, results []*FnResult, ro runOpts) int {
 			// replay
 			dir := filepath.Join(e.workDir, sanitize(o.Fn))
 			smtPath := filepath.Join(dir, sanitizeFile(o.Name)+".smt2")
+			if o.Model != "" {
+				smtPath = o.Model // candidate model of the quantifier-free weakening
+			}
 			smt, _ := os.ReadFile(smtPath)
 			rf := e.buildReplay(r, o, string(smt))
 			rf.Property = ro.prop
